@@ -196,8 +196,16 @@ func checkC11(c *hx.Checker) {
 			mk([]int{}, in[len(in)/2:len(in)/2+1], out[len(in)/2:len(in)/2+1], "op", "scalar")
 			mk([]int{2, 2}, in[:4], out[:4], "model", "2x2")
 			mk([]int{3}, in[len(in)-3:], out[len(out)-3:], "model", "tail3")
+			// larger tensors with odd element counts (block-splitting kernels): the alphabet repeated cyclically
+			for _, n := range []int{4099, 32771, 65539} {
+				iv, ov := make([]uint64, n), make([]uint64, n)
+				for k := range iv {
+					iv[k], ov[k] = in[(k*7+1)%len(in)], out[(k*7+1)%len(in)]
+				}
+				mk([]int{n}, iv, ov, "op", fmt.Sprintf("large%d", n))
+			}
 		}
-		for _, code := range []int64{0, 8, 9, 10, 14, 15, 16, 17, 22, 99, -1} {
+		for _, code := range append([]int64{0, 8, 9, 10, 14, 15, 16, 17, 22, 99, -1, -2, 1<<32 + 1, 1<<32 + 7}, extremeInts...) {
 			x := &ref.T{DT: from, Shape: []int{2}, V: alpha[:2]}
 			jobs = append(jobs, newJob("Cast", []hx.Attr{hx.AInt("to", code)}, []*ref.T{x}, nil, ref.Invalid("unsupported target"), hx.DError, hx.Bits, "op", nil, fmt.Sprintf("%s->code%d", from, code), fmt.Sprintf("to=code%d", code)))
 		}
